@@ -1,7 +1,7 @@
 SPECIFICATION Spec
 CONSTANTS
   H = 32
-  NBufs = 2
+  NBufs = 1
   Design = "own"
   MaxBlocks = 255
   ReadSizes = {0, 1, 31, 32, 33, 65, 4067, 8128, 8158, 8159, 8160, 8161}
